@@ -182,10 +182,21 @@ structure MarksLe (c c' : Ctx) : Prop where
   ss : c.ssPtr ≤ c'.ssPtr
   fs : c.fsLen ≤ c'.fsLen
 
+/-- the marks of the context a source (or a meta block) was opened with: everything `s0` had, exactly -/
+structure BaseMarks (s0 : Sess) (c : Ctx) : Prop where
+  cs : c.csLen = s0.m.code.length
+  fs : c.fsLen = s0.flows.length
+  di : c.diLen = s0.m.dict.length
+  rs : c.rsLen = s0.m.rs.length
+  ls : c.lsLen = s0.m.loops.length
+  ss : c.ssPtr = s0.m.special.length
+  dsOpen : c.dsOpen = s0.m.ds.length
+  ds : c.mode ≠ s0.m.ctx.mode → c.dsLen = s0.m.ds.length
+
 /-- the current context and the saved ones: the context the source was opened in (not a meta block),
     then only meta blocks, each above `s0`'s marks -/
 inductive Chain (s0 : Sess) (bm : Mode) : Ctx → List Ctx → Prop
-  | base (c : Ctx) : CtxOK s0 c → c.mode = bm → bm ≠ .metaEval → Chain s0 bm c (s0.m.ctx :: s0.nested)
+  | base (c : Ctx) : CtxOK s0 c → c.mode = bm → BaseMarks s0 c → Chain s0 bm c (s0.m.ctx :: s0.nested)
   | inner (c c' : Ctx) (rest : List Ctx) : Chain s0 bm c rest → CtxOK s0 c' → c'.mode = .metaEval → MarksLe c c' →
       Chain s0 bm c' (c :: rest)
 
@@ -221,7 +232,13 @@ theorem Chain.setIp {s0 : Sess} {bm : Mode} {c : Ctx} {l : List Ctx} (h : Chain 
      by rw [hf Ctx.lsLen (fun _ => rfl)]; exact o.ls, by rw [hf Ctx.ssPtr (fun _ => rfl)]; exact o.ss,
      fun h => by rw [hf Ctx.dsLen (fun _ => rfl)]; exact o.ds (hm ▸ h)⟩
   cases h with
-  | base _ o hb hne => exact .base c' (ok o) (by rw [hm]; exact hb) hne
+  | base _ o hb bmk =>
+    exact .base c' (ok o) (by rw [hm]; exact hb)
+      ⟨by rw [hf Ctx.csLen (fun _ => rfl)]; exact bmk.cs, by rw [hf Ctx.fsLen (fun _ => rfl)]; exact bmk.fs,
+       by rw [hf Ctx.diLen (fun _ => rfl)]; exact bmk.di, by rw [hf Ctx.rsLen (fun _ => rfl)]; exact bmk.rs,
+       by rw [hf Ctx.lsLen (fun _ => rfl)]; exact bmk.ls, by rw [hf Ctx.ssPtr (fun _ => rfl)]; exact bmk.ss,
+       by rw [hf Ctx.dsOpen (fun _ => rfl)]; exact bmk.dsOpen,
+       fun h => by rw [hf Ctx.dsLen (fun _ => rfl)]; exact bmk.ds (hm ▸ h)⟩
   | inner c1 _ rest hc o hmeta le =>
     exact .inner c1 c' rest hc (ok o) (by rw [hm]; exact hmeta)
       ⟨by rw [hf Ctx.dsLen (fun _ => rfl)]; exact le.ds, by rw [hf Ctx.rsLen (fun _ => rfl)]; exact le.rs,
@@ -707,14 +724,18 @@ theorem runS_cases (s : Sess) (fuel : Nat) :
     subst h
     exact hc
 
-theorem sok_contextClose_meta {bm : Mode} {s0 s : Sess} (h : Ext bm s0 s) (hm : s.m.ctx.mode = .metaEval) (fuel : Nat) :
+theorem sok_contextClose_meta {bm : Mode} {s0 s : Sess} (h : Ext bm s0 s)
+    (hbm : bm ≠ .metaEval ∨ s.nested.length ≠ s0.nested.length + 1) (hm : s.m.ctx.mode = .metaEval) (fuel : Nat) :
     SOK bm s0 (s.contextClose fuel) := by
   have hch := h.chain
   have hL := h.toL
   unfold Sess.contextClose
   generalize hN : s.nested = l at hch
   cases hch with
-  | base _ ok hb hne => exact absurd (hb ▸ hm) hne
+  | base _ ok hb _ =>
+    rcases hbm with hbm | hbm
+    · exact absurd (hb ▸ hm) hbm
+    · exact absurd (by rw [hN]; simp) hbm
   | inner prev _ rest hprev ok' hmeta le =>
     simp only [hm]
     have hL1 : ExtL s0 { s with nested := rest } :=
@@ -761,7 +782,8 @@ theorem sok_contextClose_meta {bm : Mode} {s0 s : Sess} (h : Ext bm s0 s) (hm : 
       · exact hL2.ext0
       · trivial
 
-theorem sok_nestedEnd {bm : Mode} {s0 s : Sess} (h : Ext bm s0 s) (fuel : Nat) : SOK bm s0 (s.nestedEnd fuel) := by
+theorem sok_nestedEnd {bm : Mode} {s0 s : Sess} (h : Ext bm s0 s)
+    (hbm : bm ≠ .metaEval ∨ s.nested.length ≠ s0.nested.length + 1) (fuel : Nat) : SOK bm s0 (s.nestedEnd fuel) := by
   unfold Sess.nestedEnd
   split
   · exact h.ext0
@@ -771,7 +793,7 @@ theorem sok_nestedEnd {bm : Mode} {s0 s : Sess} (h : Ext bm s0 s) (fuel : Nat) :
     · split
       · exact h.ext0
       · trivial
-    · exact sok_contextClose_meta h hm fuel
+    · exact sok_contextClose_meta h hbm hm fuel
 
 /-! ### the token loop -/
 
@@ -787,7 +809,7 @@ theorem sok_bind {bm : Mode} {s0 : Sess} (r : SRes) (k : Sess → SRes) : SOK bm
   | unsupported u => trivial
   | timeout => trivial
 
-theorem sok_tokens {bm : Mode} (fuel depth : Nat) (toks : List Tok) : ∀ (idx : Nat) (s0 s : Sess), Ext bm s0 s →
+theorem sok_tokens {bm : Mode} (hbm : bm ≠ .metaEval) (fuel depth : Nat) (toks : List Tok) : ∀ (idx : Nat) (s0 s : Sess), Ext bm s0 s →
     SOK bm s0 (tokens fuel depth toks idx s) := by
   induction hn : toks.length using Nat.strongRecOn generalizing toks with
   | _ n ih =>
@@ -819,7 +841,7 @@ theorem sok_tokens {bm : Mode} (fuel depth : Nat) (toks : List Tok) : ∀ (idx :
           split
           · exact sok_bind _ _ (sok_andRun fuel (.ok _) (ext_contextOpen hs)) (fun s1 h1 => ih rest.length (by simp) rest rfl _ _ _ h1)
           · split
-            · exact sok_bind _ _ (sok_andRun fuel _ (sok_nestedEnd hs fuel)) (fun s1 h1 => ih rest.length (by simp) rest rfl _ _ _ h1)
+            · exact sok_bind _ _ (sok_andRun fuel _ (sok_nestedEnd hs (Or.inl hbm) fuel)) (fun s1 h1 => ih rest.length (by simp) rest rfl _ _ _ h1)
             · split
               · split
                 · rename_i name rest'
@@ -886,9 +908,9 @@ theorem tokens_ok_depth (fuel depth : Nat) (toks : List Tok) : ∀ (idx : Nat) (
               · exact bind _ _ (fun s1 h1 => ih rest.length (by simp) rest rfl _ _ _ h1) h
         · exact bind _ _ (fun s1 h1 => ih rest.length (by simp) rest rfl _ _ _ h1) h
 
-theorem sok_build1 {bm : Mode} {s0 s : Sess} (h : Ext bm s0 s) (fuel : Nat) (toks : List Tok) : SOK bm s0 (s.build1 fuel toks) := by
+theorem sok_build1 {bm : Mode} {s0 s : Sess} (h : Ext bm s0 s) (hbm : bm ≠ .metaEval) (fuel : Nat) (toks : List Tok) : SOK bm s0 (s.build1 fuel toks) := by
   unfold Sess.build1
-  exact sok_bind _ _ (sok_metaRun h fuel) (fun s1 h1 => sok_tokens fuel _ toks 0 s0 s1 h1)
+  exact sok_bind _ _ (sok_metaRun h fuel) (fun s1 h1 => sok_tokens hbm fuel _ toks 0 s0 s1 h1)
 
 /-- when the build of a source succeeds, the context is the one the source was opened in -/
 theorem build1_ok_base {s s2 : Sess} {mode : Mode} (fuel : Nat) (toks : List Tok) (hmode : mode ≠ .metaEval)
@@ -918,7 +940,10 @@ theorem ext_open {s : Sess} (i : Idle s) (mode : Mode) (hmode : mode ≠ .metaEv
       by simp only [Sess.contextOpen]; rw [hidOf_cons _ _ _ (Nat.le_refl _)]; exact hidOf_all _,
       fun h => h, fun ℓ h => ⟨[], by simpa [Sess.contextOpen] using h⟩, ⟨rfl, rfl, rfl⟩⟩, ?_, ⟨[], rfl, by intro f hf; cases hf⟩, ?_, Nat.le_refl _, i.dmap⟩
   · exact .base _ ⟨Nat.le_refl _, Nat.le_refl _, Nat.le_refl _, Nat.le_refl _, Nat.le_refl _, Nat.le_refl _,
-      fun h => absurd h hmode⟩ rfl hmode
+      fun h => absurd h hmode⟩ rfl
+      ⟨rfl, rfl, rfl, rfl, rfl, rfl, rfl, fun h => by
+        simp only [Sess.contextOpen] at h ⊢
+        rw [if_neg (fun e => h e.symm)]⟩
   · simp only [Sess.contextOpen]
     refine ⟨?_, Nat.le_refl _, Nat.le_refl _, Nat.le_refl _⟩
     simp only; split
